@@ -551,17 +551,45 @@ fn main() {
             let exe = std::env::current_exe().expect("own path");
             let results: std::sync::Mutex<Vec<(usize, Result<u64, String>)>> = std::sync::Mutex::new(Vec::new());
             let outcomes: std::sync::Mutex<std::collections::BTreeSet<String>> = Default::default();
+            let unfinished: std::sync::Mutex<Vec<Option<usize>>> = Default::default();
+            let probe_died: std::sync::Mutex<Option<String>> = Default::default();
             std::thread::scope(|s| {
                 for k in 0..nthreads {
-                    let (exe, tier, results, outcomes, prop) = (&exe, &tier, &results, &outcomes, &prop);
+                    let (exe, tier, results, outcomes, prop, unfinished, probe_died) = (&exe, &tier, &results, &outcomes, &prop, &unfinished, &probe_died);
                     s.spawn(move || {
                         let mut start = 0usize;
                         loop {
-                            let o = std::process::Command::new(exe)
+                            // The child's output goes to files (no pipe to fill up) and the child is
+                            // polled, so that a case in which the subject spins without reaching a
+                            // scheduling point cannot hang the run: past the deadline plus a grace
+                            // period the child is killed and its case counted as not completed.
+                            let root = std::env::var("VERIF_SCRATCH").unwrap_or("/verif".into());
+                            let _ = std::fs::create_dir_all(format!("{root}/target"));
+                            let (fo, fe) = (format!("{root}/target/loomchk-shard-{prop}-{k}.out"), format!("{root}/target/loomchk-shard-{prop}-{k}.err"));
+                            let mut child = std::process::Command::new(exe)
                                 .args(["shard", tier, &k.to_string(), &nthreads.to_string(), &start.to_string(), &deadline.to_string(), prop])
-                                .stderr(std::process::Stdio::piped())
-                                .output()
+                                .stdout(std::fs::File::create(&fo).expect("shard out"))
+                                .stderr(std::fs::File::create(&fe).expect("shard err"))
+                                .spawn()
                                 .expect("spawn shard");
+                            let grace = if tier == "thorough" { 600 } else { 45 };
+                            let mut killed = false;
+                            let status = loop {
+                                match child.try_wait().expect("wait") {
+                                    Some(st) => break st,
+                                    None => {
+                                        let now = std::time::SystemTime::now().duration_since(std::time::UNIX_EPOCH).unwrap().as_secs();
+                                        if now > deadline + grace {
+                                            let _ = child.kill();
+                                            killed = true;
+                                        }
+                                        std::thread::sleep(std::time::Duration::from_millis(20));
+                                    }
+                                }
+                            };
+                            struct Out { stdout: Vec<u8>, stderr: Vec<u8>, status: std::process::ExitStatus }
+                            let o = Out { stdout: std::fs::read(&fo).unwrap_or_default(), stderr: std::fs::read(&fe).unwrap_or_default(), status };
+                            let _ = (std::fs::remove_file(&fo), std::fs::remove_file(&fe));
                             let text = String::from_utf8_lossy(&o.stdout);
                             let mut in_progress: Option<usize> = None;
                             for line in text.lines() {
@@ -588,9 +616,17 @@ fn main() {
                             if o.status.success() {
                                 break;
                             }
-                            // the child died inside case `in_progress`
-                            let Some(i) = in_progress else { break };
+                            if killed {
+                                unfinished.lock().unwrap().push(in_progress);
+                                break;
+                            }
                             let err = String::from_utf8_lossy(&o.stderr);
+                            // the child died inside case `in_progress`, or inside the probe that precedes the cases
+                            let Some(i) = in_progress else {
+                                let tail: String = err.lines().rev().take(3).collect::<Vec<_>>().into_iter().rev().collect::<Vec<_>>().join(" | ");
+                                *probe_died.lock().unwrap() = Some(format!("explorer process aborted inside the four probe cases that precede every shard ({}): {}", o.status, tail));
+                                break;
+                            };
                             let tail: String = err.lines().rev().take(3).collect::<Vec<_>>().into_iter().rev().collect::<Vec<_>>().join(" | ");
                             results.lock().unwrap().push((i, Err(format!("explorer process aborted inside this case ({}): {}", o.status, tail))));
                             start = i + 1;
@@ -609,13 +645,19 @@ fn main() {
                 }
             }
             let mut viol: Vec<Value> = res.iter().filter_map(|(i, r)| r.as_ref().err().map(|m| json!({"case": all[*i].to_json(), "message": m}))).collect();
+            if let Some(m) = probe_died.into_inner().unwrap() {
+                let c = Case { ops: vec![Op::W(1), Op::A], gzip: true, chunk: 8, wakers: Wakers::Fresh, consumer: Consumer::Drain, preemption_bound: Some(1) };
+                viol.push(json!({"case": c.to_json(), "message": m}));
+            }
             viol.sort_by_key(|v| v["case"]["ops"].as_array().map(|a| a.len()).unwrap_or(0));
+            let unfinished = unfinished.into_inner().unwrap();
             let outcomes = outcomes.into_inner().unwrap();
             let ev = json!({
                 "tool": "loom 0.7.2 (DPOR; real /repo/src/chunker.rs + gzip.rs compiled in through the verif-hooks seam)",
                 "tier": tier, "property": prop,
                 "case_filter": if prop == "C11" { "programs containing an abort, and consumers that drop the body" } else { "consumers that drain the body (with and without spurious re-polls)" },
                 "cases": total_cases, "cases_completed": done, "cases_skipped_by_wall_cap": total_cases - done,
+                "shards_killed_past_the_deadline": unfinished.iter().map(|i| i.map(|i| all[i].to_json()).unwrap_or(json!("probe"))).collect::<Vec<_>>(),
                 "interleavings_explored": iters,
                 "distinct_outcomes": outcomes.len(),
                 "violations": viol.len(),
